@@ -39,10 +39,24 @@ Proof. exact find_entry_spec. Qed.
 Theorem C12_ordinary_paths : forall segs, segs <> [] -> Forall ordinary segs -> pcomps (join_with 47 segs) = map CNormal segs.
 Proof. exact comps_ordinary. Qed.
 
+(* ... so the names tried are the joined trailing segment lists, shortest first:
+   file, dir/file, a/dir/file, ... *)
+Theorem C12_walk_ordinary : forall segs, Forall ordinary segs ->
+  walk_paths (rev (map CNormal segs)) [] = map (join_with 47) (suffixes_from (rev segs) []).
+Proof. exact walk_ordinary. Qed.
+Theorem C12_find_ordinary : forall d segs, segs <> [] -> Forall ordinary segs ->
+  let p := join_with 47 segs in
+  find_entry d p = match find (fun q => match get_entry (class_map d p) q with Some _ => true | None => false end)
+                              (map (fun k => join_with 47 (skipn (length segs - S k) segs)) (seq 0 (length segs))) with
+                   | Some q => get_entry (class_map d p) q | None => None end.
+Proof. exact find_entry_ordinary. Qed.
+
 Definition ex12 : distinfo := di_from_bytes (lit "SHA1 (dir/foo.tgz) = aa" ++ [10] ++ lit "Size (dir/foo.tgz) = 3 bytes" ++ [10] ++ lit "SHA1 (foo.tgz) = bb" ++ [10]).
 Example C12_example :
   walk_paths (rev (pcomps (lit "a/dir/foo.tgz"))) [] = [lit "foo.tgz"; lit "dir/foo.tgz"; lit "a/dir/foo.tgz"] /\
   option_map ename (find_entry ex12 (lit "/x/dir/foo.tgz")) = Some (lit "foo.tgz") /\
   verify_size ex12 (lit "dir/foo.tgz") (Some (lit "abc")) = inr VMissingSize /\
-  option_map ename (find_entry ex12 (lit "bar.tgz")) = None.
-Proof. vm_compute. repeat split. Qed.
+  option_map ename (find_entry ex12 (lit "bar.tgz")) = None /\
+  Forall ordinary [lit "a"; lit "dir"; lit "foo.tgz"] /\
+  map (fun k => join_with 47 (skipn (3 - S k) [lit "a"; lit "dir"; lit "foo.tgz"])) (seq 0 3) = [lit "foo.tgz"; lit "dir/foo.tgz"; lit "a/dir/foo.tgz"].
+Proof. repeat split; try (vm_compute; reflexivity); repeat constructor; unfold ordinary; repeat split; try discriminate; reflexivity. Qed.
